@@ -75,7 +75,7 @@ def fam_independent(rng):
         ins = OrderedDict(i=Bint[n])
         jn = OrderedDict(j=Bint[2])
         both = OrderedDict(i=Bint[n], j=Bint[2])
-        k = rng.randrange(8)
+        k = rng.branch(8)
         if k < 5:
             point = _t(rng, both if rng.random() < 0.3 else ins)
             dk = rng.choice([0, 1, 1, 2, 3, 3, 4])     # weight the densities that do not mention the plate
@@ -112,12 +112,14 @@ def fam_align(rng):
         ins = OrderedDict(i=Bint[2], j=Bint[3])
         t = _t(rng, ins, kind="int")
         u = _t(rng, OrderedDict(j=Bint[3]), kind="int")
-        k = rng.randrange(5)
+        k = rng.branch(6)
         a = Align(t, ("j", "i"))
         if k == 0:
             return a - u
+        if k == 5:
+            return u - a                                # eager_binary_funsor_align
         if k == 1:
-            return (u - a) if rng.random() < 0.5 else u / (a * a + 1.0)
+            return u / (a * a + 1.0)
         if k == 2:
             return a + Align(u, ("j",))
         if k == 3:
@@ -131,7 +133,7 @@ def fam_tuple(rng):
         ins = OrderedDict(i=Bint[2])
         a, b, c = _t(rng, ins, kind="int"), _t(rng, OrderedDict(), kind="int"), Variable("v", Real)
         tup = Tuple((a, b, c))
-        k = rng.randrange(4)
+        k = rng.branch(4)
         if k == 3:
             return Binary(ops.getitem, tup, Number(rng.randrange(3), 3))     # eager_getitem_tuple
         if k == 0:
@@ -145,7 +147,7 @@ def fam_tuple(rng):
 def fam_finitary(rng):
     def thunk():
         ins = OrderedDict(i=Bint[2])
-        k = rng.randrange(9)
+        k = rng.branch(9)
         x = _t(rng, ins, (2, 3), kind="int")
         y = _t(rng, ins if rng.random() < 0.5 else OrderedDict(), (2, 3), kind="int")
         if k == 0:
@@ -180,7 +182,7 @@ def fam_lambda(rng):
         ins = OrderedDict(i=Bint[3], j=Bint[2])
         t = _t(rng, ins, kind="int")
         lam = Lambda(Variable("i", Bint[3]), t * Variable("w", Real))     # lazy body: Lambda stays lazy
-        k = rng.randrange(4)
+        k = rng.branch(4)
         if k == 0:
             return lam[0] + 1.0
         if k == 1:
@@ -204,7 +206,12 @@ def fam_constant(rng):
         I = OrderedDict(i=Bint[2])
         pool = [("k", Bint[3]), ("m", Bint[2]), ("x", Real)]
         nconst = rng.choice([1, 2, 2, 3])
-        cins = OrderedDict(rng.sample(pool, nconst))
+        full_cover = rng.random() < 0.5
+        if full_cover:                                  # Bint-only const inputs, all mentioned by the other operand
+            nconst = min(nconst, 2)
+            cins = OrderedDict(rng.sample(pool[:2], nconst))
+        else:
+            cins = OrderedDict(rng.sample(pool, nconst))
 
         def pos(ins):
             shape = tuple(d.dtype for d in ins.values())
@@ -213,7 +220,7 @@ def fam_constant(rng):
         c = Constant(cins, pos(I if rng.random() < 0.7 else OrderedDict()))
         bints = OrderedDict((n, d) for n, d in cins.items() if d is not Real)
         # the other operand: covers / partly covers / is disjoint from the const inputs
-        cover = rng.randrange(4)
+        cover = rng.choice([0, 3]) if full_cover else rng.randrange(4)
         if cover == 0:
             other_ins = OrderedDict(bints)                              # every Bint const input
         elif cover == 1:
@@ -223,7 +230,7 @@ def fam_constant(rng):
         else:
             other_ins = OrderedDict(list(I.items()) + list(bints.items()))
         op = rng.choice(NONCOMM + COMM)
-        k = rng.randrange(10)
+        k = rng.branch(10)
         if k == 0:
             return op(c, pos(other_ins))                                # Constant, Tensor
         if k == 1:
@@ -262,7 +269,13 @@ def fam_arith(rng):
         x = Variable("x", Real)
         t = _t(rng, ins, kind="int")
         nz = Tensor(np.array([rng.choice([1.0, 2.0, -1.0, 0.5]) for _ in range(2)]), ins)
-        k = rng.randrange(8)
+        k = rng.branch(10)
+        if k == 8:
+            e = x + t                                       # the SAME lazy object on both sides of a non-idempotent op
+            return ops.logaddexp(e, e)
+        if k == 9:
+            e = x * t
+            return rng.choice([ops.logaddexp, ops.max, ops.min, ops.add])(e, e) - e
         if k == 7:
             return (t + x).exp().reduce(ops.add, "i")       # eager_reduce_exp
         if k == 0:
@@ -286,7 +299,7 @@ def fam_gaussian(rng):
 
     def thunk():
         np.random.seed(rng.randrange(2 ** 31))
-        k = rng.randrange(7)
+        k = rng.branch(7)
         b = OrderedDict(i=Bint[2])
         g1 = random_gaussian(OrderedDict(i=Bint[2], x=Real, y=Real))
         g2 = random_gaussian(OrderedDict(x=Real) if rng.random() < 0.5 else OrderedDict(i=Bint[2], x=Real, y=Real))
@@ -348,6 +361,8 @@ def fam_contraction(rng):
         acc = terms[0]
         for t in terms[1:]:
             acc = bin_(acc, t)
+        if rng.random() < 0.35 and red is not ops.or_:   # also reduce a variable no operand mentions (multiplicity)
+            rvars = rvars | frozenset([Variable("z", Bint[2])])
         return acc.reduce(red, rvars)
     return thunk
 
@@ -369,7 +384,7 @@ def fam_slices(rng):
         outer = Slice("i", a, b, st, n)
         inner = Slice("j", c, d, st2, m)
         t = _t(rng, OrderedDict(i=Bint[n], k=Bint[2]), kind="int")
-        k = rng.randrange(5)
+        k = rng.branch(5)
         if k == 0:
             return outer(i=inner)                                   # Slice.eager_subs with a Slice
         if k == 1:
@@ -393,7 +408,7 @@ def fam_integrate(rng):
         n = rng.choice([2, 3])
         ins = OrderedDict(i=Bint[n])
         x = Variable("x", Real)
-        k = rng.randrange(7)
+        k = rng.branch(7)
         if k == 0:
             d = Delta("x", _t(rng, ins), _t(rng, ins if rng.random() < 0.5 else OrderedDict(), kind="int"))
             return Integrate(d, x * x + _t(rng, ins, kind="int"), frozenset([x]))        # eager_integrate (Delta)
@@ -409,7 +424,10 @@ def fam_integrate(rng):
         if k == 4:
             return Integrate(g + t, g2, frozenset([x]))                                  # gaussian mixture
         if k == 5:
-            return Integrate(g, g2 + _t(rng, ins, kind="gauss"), frozenset([x]))         # distribute over a sum
+            g4 = random_gaussian(OrderedDict(x=Real))
+            with FI.normalize:                      # a sum of Gaussians that stays a lazy Contraction(null, add, ...)
+                lazy_sum = g2 + (-g4) if rng.random() < 0.5 else g2 + g4
+            return Integrate(g, lazy_sum, frozenset([x]))                                # eager_distribute_integrate
         g3 = random_gaussian(OrderedDict(i=Bint[n], x=Real))
         return Contraction(ops.logaddexp, ops.add, frozenset([x]), g + t, g3 + _t(rng, ins, kind="gauss"))
     return thunk
@@ -420,7 +438,7 @@ def fam_scatter(rng):
 
     def thunk():
         n = rng.choice([2, 3])
-        k = rng.randrange(4)
+        k = rng.branch(4)
         op = rng.choice([ops.add, ops.add, ops.logaddexp])
         if k == 0:
             src = _t(rng, OrderedDict(k=Bint[2]), kind="int")
@@ -445,7 +463,7 @@ def fam_misc(rng):
     def thunk():
         n = rng.choice([2, 3])
         ins = OrderedDict(i=Bint[n])
-        k = rng.randrange(1, 4)
+        k = 1 + rng.branch(3)
         t = _t(rng, ins, kind="int")
         if k == 0:
             # not driven: Approximate alpha-mangles approx_vars although they stay inputs of the term, so the lazy
@@ -558,7 +576,7 @@ def fam_tensordot(rng):
             rng.shuffle(xnames)
         x, y = tens(xnames), tens(ynames)
         rvars = frozenset(Variable(n, Bint[sizes[n]]) for n in shared)
-        k = rng.randrange(3)
+        k = rng.branch(3)
         if k == 0:
             return Contraction(red, bin_, rvars, x, y)
         if k == 1 and backend is not None:
@@ -573,7 +591,41 @@ def fam_tensordot(rng):
     return thunk
 
 
+def fam_getitem(rng):
+    """Binary(GetitemOp(offset), Tensor, index): Number / Variable / Tensor index at EVERY offset 0..r-1, tensors
+    with 0-2 inputs and SQUARE event shapes (a wrong axis is then silent), built directly and lazily (index a
+    Variable bound afterwards / reinterpretation)."""
+    def thunk():
+        n = rng.choice([2, 3])
+        r = rng.choice([2, 2, 3])
+        names = ["i", "j"][: rng.choice([0, 1, 2])]
+        ins = OrderedDict((nm, Bint[2 if nm == "i" else 3]) for nm in names)
+        shape = tuple(d.dtype for d in ins.values()) + (n,) * r
+        vals = [float(rng.choice([-2, -1, 0, 1, 2, 3, 4, 5])) for _ in range(int(np.prod(shape)))]
+        x = Tensor(np.array(vals).reshape(shape), ins)
+        offset = rng.randrange(r)
+        pre = (slice(None),) * offset
+        kind = rng.branch(6)
+        if kind == 0:
+            return x[pre + (Number(rng.randrange(n), n),)]                      # eager_getitem_tensor_number
+        if kind == 1:
+            v = Variable("v", Bint[n])
+            return x[pre + (v,)](v=Number(rng.randrange(n), n))                 # lazily built, then bound
+        if kind == 2:
+            return x[pre + (Variable("v", Bint[n]),)]                           # eager_getitem_tensor_variable
+        if kind == 3:
+            idx = Tensor(np.array([rng.randrange(n) for _ in range(2)]), OrderedDict(m=Bint[2]), n)
+            return x[pre + (idx,)]                                              # eager_getitem_tensor_tensor
+        if kind == 4 and r >= 2:
+            o2 = rng.randrange(r - 1)
+            return x[pre + (Number(rng.randrange(n), n),)][(slice(None),) * o2 + (Number(rng.randrange(n), n),)]
+        idx = Tensor(np.array([rng.randrange(n) for _ in range(2)]), OrderedDict(i=Bint[2]), n)
+        return x[pre + (idx,)]                                                  # index shares a batch input
+    return thunk
+
+
 FAMILIES = OrderedDict([
+    ("getitem", fam_getitem),
     ("tensordot", fam_tensordot),
     ("subschain", fam_subschain),
     ("integrate", fam_integrate), ("scatter", fam_scatter), ("misc", fam_misc),
@@ -596,8 +648,21 @@ except Exception:       # pragma: no cover
     pass
 
 
+class BranchRandom(random.Random):
+    """random.Random whose PRIMARY branch selector is deterministic for small subseeds (the coverage anchors):
+    `branch(n)` = subseed % n, so subseeds 0..n-1 visit every top-level branch of a family once."""
+    anchor = None
+
+    def branch(self, n):
+        if self.anchor is not None:
+            return self.anchor % n
+        return self.randrange(n)
+
+
 def build(family, subseed):
-    rng = random.Random(f"C02-extra-{family}-{subseed}")
+    rng = BranchRandom(f"C02-extra-{family}-{subseed}")
+    if isinstance(subseed, int) and 0 <= subseed < 4096:
+        rng.anchor = subseed
     return FAMILIES[family](rng)
 
 
